@@ -23,6 +23,8 @@ CLAIMED = {
             "loaders are modelled over abstract data (ordered dict items, 3-constructor JSON-LD terms); file reading is runtime"),
     "C05": ("6 C05", "invariant proof: swf (indexes = owner maps of the converter's own pairwise-disjoint records) holds initially (C05_init), is preserved by every accepted add_record / add_prefix (C05_step, via swf_append and swf_merge), hence in every reachable state of every history (C05_reachable); a consistent converter answers every query as a freshly constructed one and as the naive specification (C05_fresh_equiv); rejections raise ValueError only (C05_reject); C05_cases / C05_accept / C05_resolves describe exactly what an accepted call does; for all casefold tables.",
             "mutation is modelled at value level (a rejected call returns no new state); that a rejected call leaves the real object untouched is checked by the correspondence (state re-observed after every step)"),
+    "C09": ("6 C09", "C09_raise_or_wf (ValueError or a consistent strict converter), C09_union_grouping (exactly the union of the inputs' prefixes and URI prefixes; co-recorded strings stay together), C09_priority / C09_priority_expand (case-sensitive: every record of the first converter survives with its canonical prefix, URI prefix and pattern, so its prefixes expand as in c1), C09_singleton, C09_fold_distinct (case-insensitive: no two result records hold keys equal up to case), C09_sub / C09_sub_prefixes / C09_sub_uris; by induction over the fold of add_record(merge=True) using the C05 step lemmas; for all casefold tables.",
+            "derived converters get the default delimiter ':' (as in the code); inputs use ':' in the generated cases"),
 }
 NOT_YET = {}
 
